@@ -30,6 +30,10 @@ func propC17(c *Ctx) {
 		ruleScannerAgree(c, rsa, rta)
 		rea := c.Rule("escape-agree", "the string writers of the encoder append, for each of the 128 ASCII byte values, the bytes encoding/json's appendString appends (abstract interpretation of the escape block of both)", 2)
 		ruleEscapeAgree(c, rea)
+		rmv := c.Rule("marshaler-validated", "the bytes a value's MarshalJSON returns reach the output only through the validating copy", 1)
+		ruleMarshalerValidated(c, rmv)
+		rjn := c.Rule("json-value-nonnil", "no Object-valued function of the json decoder returns a nil Object with a nil error: Unmarshal returns uGO values all the way down", 5)
+		ruleJSONValueNonNil(c, rjn)
 		res := c.Rule("enc-sign", "no encoder of the json package changes the signedness of a 64-bit integer on its way to strconv (uint values above 2^63 keep their value)", 1)
 		ruleEncSign(c, res)
 		rse := c.Rule("strconv-err", "every strconv parsing call of the json package uses its error result: an out-of-range number is reported as encoding/json reports it", 1)
